@@ -12,7 +12,10 @@ import threading
 from hypothesis import strategies as st
 
 import yaql
-from vf import common, lexhook, sched, trees
+import os
+
+import yaql.language.factory
+from vf import common, lexhook, linesched, sched, trees
 from vf.props import c03
 
 RULE = ('cases are (engine kind, texts, order/assignment to threads, '
@@ -20,13 +23,20 @@ RULE = ('cases are (engine kind, texts, order/assignment to threads, '
         'parse followed by a later parse, or two texts that are equal up to '
         'whitespace and case (incl. exact repeats); concurrent '
         'non-trivial = the schedule switches threads between two token '
-        'fetches of one parse; distinct = distinct (texts, trace)')
+        'fetches of one parse; line tier: pairs of texts with escapes, '
+        'errors and long numerals on a warm shared engine, A suspended at '
+        'every line event of the yaql package (inside token rules and '
+        'grammar actions) while B parses, and on a brand-new engine at the '
+        'first execution of every line of A\'s first parse; non-trivial '
+        'there = B ran while A was suspended inside its parse; distinct = '
+        'distinct (texts, trace)')
 ASSUMPTIONS = [
     'scheduling points are token fetches (ply.lex.Lexer.token patched at '
     'class level from the harness); races inside one token() call are only '
     'reachable by the free-running tier, which is probabilistic',
     'reference = a brand-new engine from the same factory settings, one per '
     'text',
+    'the line tier tries one preemption per run (A | B | rest of A)',
 ]
 
 VALID = c03.VALID + [
@@ -64,9 +74,32 @@ def fresh_engine(kind, really=False):
     """
     if really:
         return common.engine(cache=False, **c03.ENGINES[kind])
-    t = template(kind)
-    return type(t)(t.lexer.clone(), copy.copy(t.parser), dict(t.options),
-                   t.factory)
+    return _clone_engine(template(kind))
+
+
+def _clone_engine(t):
+    """shallow copy of an engine in which every ply lexer / LR parser object
+    it holds (directly or in a holder object of the yaql package) is replaced
+    by a private copy; written against the objects, not the constructor, so
+    that refactorings of YaqlEngine do not break the harness"""
+    from ply import lex, yacc
+
+    def private(obj, depth):
+        if isinstance(obj, lex.Lexer):
+            return obj.clone()
+        if isinstance(obj, yacc.LRParser):
+            return copy.copy(obj)
+        if depth < 2 and type(obj).__module__.startswith('yaql.') and \
+                hasattr(obj, '__dict__') and not isinstance(
+                    obj, yaql.language.factory.YaqlFactory):
+            c = copy.copy(obj)
+            for k, v in list(vars(c).items()):
+                nv = private(v, depth + 1)
+                if nv is not v:
+                    setattr(c, k, nv)
+            return c
+        return obj
+    return private(t, 0)
 
 
 def sut(kind):
@@ -297,7 +330,63 @@ def check_free(run, case):
                   case.get('use_eval', False))
 
 
-REPLAY = {'sequential': check_sequential, 'concurrent': check_concurrent,
+# --------------------------------------------------------------------------
+# line-granular single preemption (inside token fetches, inside the first
+# parse of a brand-new engine)
+
+_YAQL_DIR = os.path.dirname(os.path.abspath(yaql.__file__)) + os.sep
+LINE_POOL = ["'a\\n\\tb\\x41\\xZZ'", "   'q\\n\\t'", "'\\u00e9' + 1",
+             "1 + '\\xzz'", "f('\\n', 2)", "[1, 'abc", '$.a.b(1, x => 2)',
+             '1 ?', '"\\x41\\u12" + 1', '  "\\N{BULLET}\\N{nope}"',
+             '12345678901234567890 + 1.50', 'a and not b or c in d',
+             '$x.where($ > 1)', '{a => [1, 2]}.a[0]']
+
+
+def check_line(run, case):
+    """case: {kind: line, engine, texts: [A, B], at, cold}"""
+    kind = case['engine']
+    ta, tb = (common.dec(t) for t in case['texts'])
+    eng = fresh_engine(kind, really=True) if case.get('cold') else sut(kind)
+    out = linesched.run_preempted(
+        lambda: trees.parse_outcome(eng, ta),
+        lambda: trees.parse_outcome(eng, tb), case['at'], _YAQL_DIR)
+    if out is None:
+        run.inconclusive += 1
+        return
+    ra, rb, fired, where = out
+    got = [r[1] if r[0] == 'ok' else
+           ('exc', type(r[1]).__name__, None, None, str(r[1]))
+           for r in (ra, rb)]
+    full = dict(case, where=list(where) if where else None)
+    run.case(full, fired, fp=(kind, case['texts'], case['at'],
+                              bool(case.get('cold'))),
+             cls=['line-preemption', 'cold-engine' if case.get('cold')
+                  else 'warm-engine'])
+    _compare(run, full, kind, [ta, tb], got,
+             'cold-concurrent' if case.get('cold') else 'concurrent')
+
+
+def _line_shard(run, jobs):
+    for kind, ta, tb, cold, budget in jobs:
+        if cold:
+            eng = fresh_engine(kind, really=True)
+        else:
+            eng = sut(kind)
+            trees.parse_outcome(eng, ta)
+        _, total, firsts = linesched.events(
+            lambda: trees.parse_outcome(eng, ta), _YAQL_DIR)
+        ats = [f[0] for f in firsts] if cold else list(range(1, total + 1))
+        if len(ats) > budget:
+            step = len(ats) / float(budget)
+            ats = sorted({ats[int(i * step)] for i in range(budget)})
+        for at in ats:
+            check_line(run, {'kind': 'line', 'engine': kind,
+                             'texts': [common.enc(ta), common.enc(tb)],
+                             'at': at, 'cold': cold})
+
+
+REPLAY = {'line': check_line,
+          'sequential': check_sequential, 'concurrent': check_concurrent,
           'concurrent-choices': check_concurrent_choices, 'free': check_free}
 
 
@@ -394,6 +483,21 @@ def run(run):
     run.hyp('random-schedules', conc,
             lambda c: check_concurrent_choices(run, c),
             6000 if full else 300)
+    # line-granular single preemption: warm engine, every line event of A;
+    # brand-new engine, first execution of every line during A's first parse
+    lp = LINE_POOL + INVALID[:6]
+    pairs = [(a, b) for a in lp for b in lp]
+    if not full:
+        pairs = pairs[run.seed % 3::3]
+    jobs = [('default', a, b, False, 400) for a, b in pairs]
+    if full:
+        jobs += [(k, a, b, False, 400) for k in ('legacy', 'custom1')
+                 for a, b in pairs[::4]]
+    cold = [(KINDS[i % len(KINDS)], lp[(i * 5 + run.seed) % len(lp)],
+             lp[(i * 3 + 1) % len(lp)], True, 100 if full else 40)
+            for i in range(48 if full else 16)]
+    allj = cold + jobs
+    run.shards(_line_shard, [(allj[i::16],) for i in range(16)])
     # free-running
     for kind in (KINDS if full else ['default']):
         _free_running(run, kind, 4, 6000 if full else 700)
